@@ -1,6 +1,9 @@
 #!/bin/sh
-# Builds the simulator from files on disk only (offline).
+# MANIFEST.setup_cmd: builds the simulator from files on disk only (offline),
+# then runs a reduced form of the determinism protocol (DESIGN.md 3.1.5 / 10.3).
 set -e
-cd "$(dirname "$0")/sim"
+cd "$(dirname "$0")"
 export CARGO_NET_OFFLINE=true
-cargo build --release --offline 2>&1 | tail -3
+(cd sim && cargo build --release --offline 2>&1 | tail -3)
+export VERIF_ROOT="$(pwd)"
+sim/target/release/simw selftest 40 | tail -3 || echo "setup: determinism selftest reported a problem (see ./check selftest)"
